@@ -284,3 +284,223 @@ Proof.
   rewrite parse_pref_toks. unfold tokenize. change (@nil N) with (rev (@nil N)) at 1.
   apply (item_step c (items b) [] [] b); [reflexivity|apply continuable_nil|apply items_tail].
 Qed.
+
+(* ================================================================================================ *)
+(* A.6 pref_str, strip(", ") and replace(" ", "")                                                   *)
+(* ================================================================================================ *)
+Lemma flat_map_shift {A} (g : A -> text) (s : text) b : forall c,
+  flat_map (fun x => g x ++ s) (c :: b) = (g c ++ flat_map (fun x => s ++ g x) b) ++ s.
+Proof.
+  induction b as [|c2 b IH]; intros c.
+  - simpl. now rewrite !app_nil_r.
+  - change (flat_map (fun x => g x ++ s) (c :: c2 :: b))
+      with ((g c ++ s) ++ flat_map (fun x => g x ++ s) (c2 :: b)).
+    rewrite IH. simpl. now rewrite <- !app_assoc.
+Qed.
+
+(* the assembled text of a non-empty ballot before the trailing ", " *)
+Definition body (c : list N) (b : ballot) : text :=
+  cat_str c ++ flat_map (fun x => lit ", " ++ cat_str x) b.
+
+Lemma pref_str_body c b : pref_str (c :: b) = body c b ++ lit ", ".
+Proof. unfold pref_str, body. apply flat_map_shift. Qed.
+
+Definition starts_good (t : text) : Prop :=
+  exists z t1, t = z :: t1 /\ (is_digit z || (z =? 123)%N) = true.
+Definition ends_good (t : text) : Prop :=
+  exists t0 z, t = t0 ++ [z] /\ (is_digit z || (z =? 125)%N) = true.
+
+Lemma ends_good_app x t : ends_good t -> ends_good (x ++ t).
+Proof. intros [t0 [z [-> Hz]]]. exists (x ++ t0), z. now rewrite app_assoc. Qed.
+Lemma starts_good_app t x : starts_good t -> starts_good (t ++ x).
+Proof. intros [z [t1 [-> Hz]]]. now exists z, (t1 ++ x). Qed.
+
+Lemma show_N_starts n : starts_good (show_N n).
+Proof.
+  pose proof (show_N_nonempty n) as NE. pose proof (show_N_digits n) as D.
+  destruct (show_N n) as [|z t]; [now elim NE|]. simpl in D. apply andb_true_iff in D as [Dz _].
+  exists z, t. now rewrite Dz.
+Qed.
+Lemma show_N_ends n : ends_good (show_N n).
+Proof.
+  pose proof (show_N_nonempty n) as NE. pose proof (show_N_digits n) as D.
+  destruct (exists_last NE) as [t0 [z E]]. rewrite E in D. rewrite forallb_app in D.
+  apply andb_true_iff in D as [_ Dz]. simpl in Dz. rewrite andb_true_r in Dz.
+  exists t0, z. now rewrite Dz.
+Qed.
+
+Lemma cat_str_starts c : starts_good (cat_str c).
+Proof.
+  destruct c as [|a [|a2 c]].
+  - now exists 123%N, [125%N].
+  - apply show_N_starts.
+  - eexists 123%N, _. split; [reflexivity|reflexivity].
+Qed.
+Lemma cat_str_ends c : ends_good (cat_str c).
+Proof.
+  destruct c as [|a [|a2 c]].
+  - now exists [123%N], 125%N.
+  - apply show_N_ends.
+  - unfold cat_str. rewrite app_assoc. eexists _, 125%N. split; reflexivity.
+Qed.
+
+Lemma body_starts c b : starts_good (body c b).
+Proof. apply starts_good_app, cat_str_starts. Qed.
+Lemma body_cons c c2 b : body c (c2 :: b) = cat_str c ++ lit ", " ++ body c2 b.
+Proof. unfold body. cbn [flat_map]. now rewrite <- app_assoc. Qed.
+Lemma body_ends b : forall c, ends_good (body c b).
+Proof.
+  induction b as [|c2 b IH]; intros c.
+  - unfold body. simpl. rewrite app_nil_r. apply cat_str_ends.
+  - rewrite body_cons. apply ends_good_app, ends_good_app. apply (IH c2).
+Qed.
+
+Lemma strip_by_keep f t w :
+  (exists z t1, t = z :: t1 /\ f z = false) -> (exists t0 z, t = t0 ++ [z] /\ f z = false) ->
+  forallb f w = true -> strip_by f (t ++ w) = t.
+Proof.
+  intros [z [t1 [E1 Hz]]] [t0 [z' [E2 Hz']]] Hw. unfold strip_by.
+  assert (L : lstrip_by f (t ++ w) = t ++ w) by (rewrite E1; simpl; now rewrite Hz).
+  rewrite L. rewrite rstrip_by_all by exact Hw.
+  rewrite E2. unfold rstrip_by. rewrite rev_app_distr. simpl. rewrite Hz'.
+  simpl. now rewrite rev_involutive.
+Qed.
+
+Definition cs (c : N) : bool := existsb (N.eqb c) (lit ", ").
+
+Lemma good_start_not_cs z : (is_digit z || (z =? 123)%N) = true -> cs z = false.
+Proof.
+  intros H. unfold cs. simpl. rewrite orb_false_r. apply orb_false_iff. split; apply N.eqb_neq; intros ->; discriminate.
+Qed.
+Lemma good_end_not_cs z : (is_digit z || (z =? 125)%N) = true -> cs z = false.
+Proof.
+  intros H. unfold cs. simpl. rewrite orb_false_r. apply orb_false_iff. split; apply N.eqb_neq; intros ->; discriminate.
+Qed.
+Lemma good_start_not_space z : (is_digit z || (z =? 123)%N) = true -> is_space z = false.
+Proof.
+  intros H. apply orb_true_iff in H as [H|H].
+  - apply digit_not_space in H. exact H.
+  - apply N.eqb_eq in H. now subst.
+Qed.
+Lemma good_end_not_space z : (is_digit z || (z =? 125)%N) = true -> is_space z = false.
+Proof.
+  intros H. apply orb_true_iff in H as [H|H].
+  - apply digit_not_space in H. exact H.
+  - apply N.eqb_eq in H. now subst.
+Qed.
+
+(* pref_str.strip(", ") removes exactly the trailing separator *)
+Lemma strip_pref_str c b : strip_chars (lit ", ") (pref_str (c :: b)) = body c b.
+Proof.
+  rewrite pref_str_body. unfold strip_chars. apply (strip_by_keep cs).
+  - destruct (body_starts c b) as [z [t1 [E H]]]. exists z, t1. split; [exact E|now apply good_start_not_cs].
+  - destruct (body_ends b c) as [t0 [z [E H]]]. exists t0, z. split; [exact E|now apply good_end_not_cs].
+  - reflexivity.
+Qed.
+
+Lemma remove_sp_app a b : remove_sp (a ++ b) = remove_sp a ++ remove_sp b.
+Proof. apply filter_app. Qed.
+
+Lemma remove_sp_id s : lacks 32 s = true -> remove_sp s = s.
+Proof.
+  unfold remove_sp, lacks. induction s as [|c r IH]; simpl; [reflexivity|]. intros H.
+  apply andb_true_iff in H as [Hc Hr]. rewrite Hc. now rewrite IH.
+Qed.
+
+Lemma remove_sp_show n : remove_sp (show_N n) = show_N n.
+Proof. apply remove_sp_id. now apply show_N_lacks. Qed.
+
+Lemma remove_sp_join c : remove_sp (join (lit ", ") (map show_N c)) = join [44%N] (map show_N c).
+Proof.
+  induction c as [|a c IH]; [reflexivity|]. destruct c as [|b c]; [apply remove_sp_show|].
+  simpl map in *. rewrite join_comma_cons.
+  change (join (lit ", ") (show_N a :: show_N b :: map show_N c))
+    with (show_N a ++ lit ", " ++ join (lit ", ") (show_N b :: map show_N c)).
+  rewrite !remove_sp_app. rewrite remove_sp_show, IH. reflexivity.
+Qed.
+
+Lemma remove_sp_cat_str c : remove_sp (cat_str c) = cat_str_ns c.
+Proof.
+  destruct c as [|a [|a2 c]]; [reflexivity|apply remove_sp_show|].
+  unfold cat_str, cat_str_ns. rewrite !remove_sp_app. rewrite remove_sp_join. reflexivity.
+Qed.
+
+Lemma remove_sp_body c b : remove_sp (body c b) = cat_str_ns c ++ items b.
+Proof.
+  unfold body. rewrite remove_sp_app, remove_sp_cat_str. f_equal.
+  induction b as [|c2 b IH]; [reflexivity|]. cbn [flat_map]. rewrite !remove_sp_app.
+  rewrite remove_sp_cat_str, IH. reflexivity.
+Qed.
+
+(* C08_ties: for every ballot — any number of categories, each empty, singleton or larger, in any
+   position — tokenizer + category construction read back what the printer (with its strip(", ")) wrote *)
+Theorem ties_inverse b : parse_pref (remove_sp (strip_chars (lit ", ") (pref_str b))) = Ok b.
+Proof.
+  destruct b as [|c b]; [reflexivity|].
+  rewrite strip_pref_str, remove_sp_body. apply parse_pref_ns.
+Qed.
+
+(* the stripped text of a non-empty ballot starts with a digit or "{" and ends with a digit or "}":
+   strip(", ") cannot eat into it *)
+Theorem stripped_ends c b :
+  starts_good (strip_chars (lit ", ") (pref_str (c :: b))) /\ ends_good (strip_chars (lit ", ") (pref_str (c :: b))).
+Proof. rewrite strip_pref_str. split; [apply body_starts|apply body_ends]. Qed.
+
+(* ================================================================================================ *)
+(* B. one ballot line                                                                               *)
+(* ================================================================================================ *)
+Definition bchar (c : N) : bool := is_run c || (c =? 123)%N || (c =? 125)%N.
+
+Lemma runs_bchars s : forallb is_run s = true -> forallb bchar s = true.
+Proof. apply forallb_impl. intros c H. unfold bchar. now rewrite H. Qed.
+
+Lemma cat_str_ns_bchars c : forallb bchar (cat_str_ns c) = true.
+Proof.
+  destruct c as [|a [|a2 c]]; [reflexivity|apply runs_bchars, show_N_runs|].
+  set (c' := a :: a2 :: c).
+  change (cat_str_ns c') with ([123%N] ++ join [44%N] (map show_N c') ++ [125%N]).
+  rewrite !forallb_app. rewrite (runs_bchars _ (runs_join c')). reflexivity.
+Qed.
+
+Lemma items_bchars b : forallb bchar (items b) = true.
+Proof.
+  induction b as [|c b IH]; [reflexivity|].
+  change (items (c :: b)) with ([44%N] ++ cat_str_ns c ++ items b).
+  rewrite !forallb_app, cat_str_ns_bchars, IH. reflexivity.
+Qed.
+
+Lemma bchars_lack_colon s : forallb bchar s = true -> lacks 58 s = true.
+Proof.
+  apply forallb_impl. intros c H. apply negb_true_iff. apply N.eqb_neq. intros ->. discriminate.
+Qed.
+
+Lemma strip_fix_good t : starts_good t -> ends_good t -> strip t = t.
+Proof.
+  intros [z [t1 [E1 H1]]] [t0 [z' [E2 H2]]]. unfold strip.
+  rewrite <- (app_nil_r t) at 1. apply strip_by_keep.
+  - exists z, t1. split; [exact E1|now apply good_start_not_space].
+  - exists t0, z'. split; [exact E2|now apply good_end_not_space].
+  - reflexivity.
+Qed.
+
+Lemma ballot_line_read mu c b :
+  ballot_of_line (ballot_line mu (c :: b)) = Ok (mult_of mu (c :: b), c :: b).
+Proof.
+  unfold ballot_of_line, ballot_line. rewrite strip_pref_str.
+  set (m := mult_of mu (c :: b)).
+  replace (show_N m ++ lit ": " ++ body c b ++ nl) with ((show_N m ++ lit ": " ++ body c b) ++ nl)
+    by (now rewrite <- !app_assoc).
+  rewrite strip_nl_r by reflexivity.
+  rewrite strip_fix_good.
+  2:{ apply starts_good_app. destruct (show_N_starts m) as [z [t1 [E H]]]. exists z, t1. split; [exact E|].
+      apply orb_true_iff in H as [H|H]; [now rewrite H|].
+      exfalso. apply N.eqb_eq in H. subst z. pose proof (show_N_digits m) as D. rewrite E in D. discriminate. }
+  2:{ apply ends_good_app, ends_good_app, body_ends. }
+  rewrite !remove_sp_app, remove_sp_show, remove_sp_body.
+  change (remove_sp (lit ": ")) with [58%N]. simpl app at 2.
+  rewrite split_on_app.
+  rewrite (split_on_none 58 (show_N m)) by (now apply show_N_lacks).
+  rewrite (split_on_none 58 (cat_str_ns c ++ items b)).
+  2:{ apply bchars_lack_colon. rewrite forallb_app, cat_str_ns_bchars. apply items_bchars. }
+  simpl app. cbv iota beta. rewrite py_int_show_N. simpl rbind. now rewrite parse_pref_ns.
+Qed.
